@@ -171,10 +171,10 @@ def peak_case(draw):
     two_d = draw(st.integers(0, 2)) == 0
     if two_d:
         s = draw(GS.spec2d_case(layouts=["none", "t", "tl"], max_nf=20, max_nd=24, uniform_only=True,
-                                allow_zero_f=False, kinds=["random", "smooth", "sparse", "nan"], max_cells=5000))
+                                allow_zero_f=False, kinds=["random", "smooth", "sparse", "nan"], max_cells=5000, history=True))
     else:
         s = draw(GS.spec1d_case(layouts=["none", "t", "tl"], allow_zero_f=False, kinds=["random", "smooth", "sparse", "nan"],
-                                moments="any"))
+                                moments="any", history=True))
     return {"spec": s, "power": draw(st.sampled_from([4, 4, 5, 3])), "params": draw(params()),
             "convention": draw(st.sampled_from(["going_to_counter_clockwise_east", "coming_from_clockwise_north"]))}
 
@@ -209,6 +209,8 @@ def run_peak(c):
     check_dataset(ds, tuple(a["shape"]), [r[0] for r in refs], [r[1] for r in refs], [r[2] for r in refs],
                   [float(x) for x in dir_ref], f"peak method power={c['power']} kind={sc['kind']}")
     classes = ["peak_" + sc["kind"], f"power{c['power']}", "layout_" + sc["layout"]]
+    if sc.get("history"):
+        classes.append("object_modified_in_place_after_earlier_queries")
     if sc["kind"] == "2d":
         ds1 = call(spec.as_frequency_spectrum(), cc, "peak", power=c["power"])
         for k in ("friction_velocity", "u10", "direction"):
